@@ -856,6 +856,10 @@ impl<'a> Gen<'a> {
             let olds: Vec<&str> = if old.is_empty() { vec![] } else { old.split(',').collect() };
             if old != joined && n == b.0.len() && olds.len() == b.0.len() {
                 let mut map: Vec<(String, String)> = vec![];
+                // the signature's contract (requires / ensures) can only name parameters and the return value: body
+                // locals are not in scope there, so only PARAMETER renamings apply to `sig` sections (a local `r`
+                // renamed in the body must not touch a return value the unit happens to call `r`)
+                let mut param_map: Vec<(String, String)> = vec![];
                 let mut ok = true;
                 for (i, (o, nw)) in olds.iter().zip(b.0.iter()).enumerate() {
                     if o != nw {
@@ -866,6 +870,8 @@ impl<'a> Gen<'a> {
                                 map.push((o.to_string(), nw.clone()));
                                 if i < nparams {
                                     map.push((format!("{o}0"), format!("{nw}0"))); // R7 re-binding
+                                    param_map.push((o.to_string(), nw.clone()));
+                                    param_map.push((format!("{o}0"), format!("{nw}0")));
                                 }
                             }
                         }
@@ -884,6 +890,10 @@ impl<'a> Gen<'a> {
                 }
                 if ok && !map.is_empty() {
                     for s in out.sections.iter_mut() {
+                        if matches!(s.kind.as_str(), "sig" | "ret" | "param") {
+                            s.text = rename_idents(&s.text, &param_map);
+                            continue;
+                        }
                         s.arg = rename_anchor_arg(&s.arg, &map);
                         s.text = rename_idents(&s.text, &map);
                     }
